@@ -26,7 +26,8 @@ GroupClauses(g) ==
   \cup Flag(C14Ordered(prim, sel, Tol), "C14_not_in_decreasing_association")
   \cup Flag(Len(sel) <= g.nbest * nm, "C14_more_than_n_best")
   \cup Flag(C14Uncorrelated(C.a, sel, g.thr, Tol) \/ nm > 1, "C14_returned_features_too_associated")
-  \cup Flag(\A k \in 1..nm : C14Omitted(g.mrefs[k], C.a, sel, feats, g.thr, g.nbest, Tol), "C14_omitted_without_reason")
+  \* (with colsample < 1 the features are first screened in random halves: omissions are not determined by the data)
+  \cup Flag(g.sampled \/ \A k \in 1..nm : C14Omitted(g.mrefs[k], C.a, sel, feats, g.thr, g.nbest, Tol), "C14_omitted_without_reason")
   \cup Flag(\A k \in 1..nm : \A f \in feats :
                g.mcodes[k][f] = UNDEF \/ g.mrefs[k][f] = UNDEF
                \/ Abs(g.mcodes[k][f] - g.mrefs[k][f]) <= Tol + g.mrefs[k][f] \div 100000,
